@@ -93,6 +93,27 @@ class Level(int):
     """An int subclass."""
 
 
+class Handle:
+    """
+    A value whose type cannot be pickled by itself (like a C-extension handle: struct.Struct, a compiled pattern of
+    an extension library): the host application registers a reducer for it with copyreg.pickle() at start-up -
+    which happens AFTER the library was imported.
+    """
+
+    def __init__(self, name):
+        self.name = name
+
+    def __reduce_ex__(self, protocol):
+        raise TypeError("cannot pickle 'Handle' object (no reducer registered with copyreg)")
+
+    def egv_canon(self):
+        return self.name
+
+
+def reduce_handle(h):
+    return Handle, (h.name,)
+
+
 class Colour(str, enum.Enum):
     RED = "idx"      # equal to an attribute NAME every vertex has (written early in any dump)
     NOTE = "note"
@@ -245,6 +266,35 @@ class VRecord(Vertex):
         return None
 
 
+class VBag(Vertex):
+    """
+    Record-style vertex: names its base classes do not manage are filed in a bag (the public `extras` dictionary), not
+    in the instance dictionary; reading and deleting them goes the same way (setattr / getattr / delattr agree).
+    """
+
+    def __init__(self, *args, **kwargs):
+        object.__setattr__(self, "extras", {})
+        super().__init__(*args, **kwargs)
+
+    def __setattr__(self, name, value):
+        if (name.startswith("_") and not name.startswith("__")) or name in vars(self) or hasattr(type(self), name):
+            object.__setattr__(self, name, value)
+        else:
+            vars(self)["extras"][name] = value
+
+    def __getattr__(self, name):  # only reached when the normal lookup misses
+        try:
+            return vars(self)["extras"][name]
+        except KeyError:
+            raise AttributeError(name) from None
+
+    def __delattr__(self, name):
+        if name in vars(self)["extras"]:
+            del vars(self)["extras"][name]
+        else:
+            object.__delattr__(self, name)
+
+
 class ClusterVertex(Vertex):
     """A vertex that is also an iterable of vertices (a cluster yielding its members)."""
 
@@ -301,7 +351,7 @@ EDGE_CLASSES = {
 SPEC_ONLY_EDGE_CLASSES = {"DuckLink": DuckLink, "OtherLink~": OtherLinkNamesake}
 SPEC_ONLY_VERTEX_CLASSES = {"Vertex~": VertexNamesake, "VSub~": VSubNamesake, "UnhashableVertex": UnhashableVertex,
                             "RankedVertex": RankedVertex, "VDirLess": VDirLess, "VRecord": VRecord,
-                            "ClusterVertex": ClusterVertex}
+                            "ClusterVertex": ClusterVertex, "VBag": VBag}
 LINK_CLASSES = dict(EDGE_CLASSES)
 LINK_CLASSES["MultiLink"] = MultiLink
 ALL_CLASSES = {}
